@@ -4,6 +4,7 @@ from __future__ import annotations
 import random
 
 from flamapy.metamodels.fm_metamodel.transformations import SPLOTWriter
+from flamapy.metamodels.fm_metamodel.transformations import pl_writer
 from flamapy.metamodels.fm_metamodel.transformations.pl_writer import PLWriter
 
 from .. import refsem as R
@@ -20,8 +21,7 @@ def ctc_sets(names, depth):
     return trees
 
 
-# Name lists (identifier-like, none is a keyword of a target format or an operator name of the constraint
-# language): names that contain one another, that are pieces of the connective words, that differ by case
+# Name lists (identifier-like, none is a connective of a target format): names that contain one another, that are pieces of the connective words, that differ by case
 # or by an underscore. The formats have no quoting for such names, so the exports must keep them apart.
 NAME_LISTS = [
     ['GPS', 'GPS2', 'PS', 'G', 'GPS22', 'S2'],
@@ -33,6 +33,9 @@ NAME_LISTS = [
     ['F_0', '_F0', 'F0_', 'F__0', '_', '__'],
     ['AND1', 'ORx', 'NOTa', 'XORb', 'IMPLIESc', 'xAND'],
     ['and_', '_or', 'not_x', 'x_not', 'or_and', 'XOR_'],
+    # operator names of the constraint language (not connectives of the target formats: those are 'and', 'or', 'not', 'XOR', 'MUX')
+    ['AND', 'OR', 'NOT', 'IMPLIES', 'REQUIRES', 'EXCLUDES'],
+    ['EQUIVALENCE', 'Not', 'And', 'Or', 'Xor', 'IFF'],
 ]
 SPLOT_ONLY_LISTS = [['a b', 'a  b', 'ab', 'a-b', 'a_b', 'a.b'], ['é', 'e', 'É', 'ée', 'e é', 'E']]
 
@@ -236,7 +239,7 @@ WITNESSES = {}
 def info(tier):
     return {
         'assumptions': ['each export is a program; its meaning is given by the independent interpreters in fmverif/props/interp.py (SXFM tree/group lines + CNF clauses; .exp formulas with not > and > or/XOR > -> > <->)',
-                        'models: all shapes up to N, every 0<=min<=max<=k with max>=1, constraints over the eight logical operators; names are the placeholders F0..Fn and, for every (shape, cards), one of %d lists of identifier-like names that contain one another, are pieces of the connective words, or differ by case / underscore (SPLOT also blanks, hyphens, non-ASCII); names equal to a keyword of the target format or to an operator name of the constraint language are outside the claim (the formats cannot quote them)' % (len(NAME_LISTS) + len(SPLOT_ONLY_LISTS)),
+                        'models: all shapes up to N, every 0<=min<=max<=k with max>=1, constraints over the eight logical operators; names are the placeholders F0..Fn and, for every (shape, cards), one of %d lists of identifier-like names that contain one another, are pieces of the connective words, or differ by case / underscore (SPLOT also blanks, hyphens, non-ASCII); names equal to a connective of the target format (and, or, not, XOR, MUX) are outside the claim (the formats cannot quote them); operator names of the constraint language (AND, OR, NOT, IMPLIES, ...) are inside since the serialiser repair' % (len(NAME_LISTS) + len(SPLOT_ONLY_LISTS)),
                         'the 2^n selections are decided by one z3 query per program (source semantics xor interpreted export, unsat)',
                         'AST.get_clauses (flamapy.core) is executed as is'],
         'coverage': {'functions_encoded': ['SPLOTWriter.transform', 'splot_writer.fm_to_splot/add_features/add_constraints', 'PLWriter.transform', 'pl_writer.to_exp/get_relation_formula/get_*_formula/get_constraint_formula',
@@ -244,3 +247,97 @@ def info(tier):
                      'bounds': {'shapes': 'N<=%d' % (4 if tier == 'quick' else 5), 'constraints': '1-2 trees of depth<=1 per model + all depth<=2 trees over two names on one model'},
                      'stubs': []},
     }
+
+
+# -- E1: the name quantifier -----------------------------------------------------------------------------
+# The programs above are interpreted for concrete name lists. For *every* name the solver decides that the
+# export is the placeholder export with the name put where the placeholder stands (and nowhere else): the
+# export of the placeholder model is proved equivalent by the z3 batches, so the same holds for every name
+# that the target format reads as one identifier distinct from its keywords and from the other names.
+PLACEHOLDER = 'Qz7'
+NAME_TREES = [('IMPLIES', 'F1', 'F2'), ('AND', 'F1', ('NOT', 'F2')), ('OR', ('NOT', 'F1'), 'F0'), ('EXCLUDES', 'F2', 'F1'),
+              ('EQUIVALENCE', 'F1', ('XOR', 'F2', 'F0')), ('REQUIRES', 'F1', 'F0')]
+IDENT_CHARS = 'abcdefghijklmnopqrstuvwxyzABCDEFGHIJKLMNOPQRSTUVWXYZ0123456789_'
+
+
+def _name_model(shape, pos, name, in_ctcs=True):
+    n = R.n_features(shape)
+    names = ['F%d' % i for i in range(n)]
+    names[pos] = name
+    mp = {'F%d' % i: names[i] for i in range(n)}
+    trees = [_ren(t, mp) for t in NAME_TREES if all(int(x[1:]) < n for x in R.tree_names(t)) and (in_ctcs or 'F%d' % pos not in R.tree_names(t))]
+    cards = R.default_cards(shape)
+    return R.build(shape, cards, names=names, ctcs=[R.ctc('c%d' % i, t) for i, t in enumerate(trees)])
+
+
+def _subst_equal(text, template, name) -> bool:
+    """text == template with every PLACEHOLDER replaced by name. The comparison walks through the text piece by
+    piece (slices at offsets that depend on len(name) only): equality of two long symbolic concatenations, or a
+    split of the symbolic text, makes the engine enumerate characters (measured: no verdict in 60 s; the walk
+    confirms in 22 s on the same condition)."""
+    parts = template.split(PLACEHOLDER)
+    k = len(name)
+    if len(text) != len(template) + (k - len(PLACEHOLDER)) * (len(parts) - 1):
+        return False
+    off = 0
+    for i, p in enumerate(parts):
+        if i > 0:
+            if text[off:off + k] != name:
+                return False
+            off += k
+        if text[off:off + len(p)] != p:
+            return False
+        off += len(p)
+    return True
+
+
+def name_commutes(which, shape, pos, name) -> bool:
+    from crosshair.tracers import NoTracing
+    # SPLOT clauses come from flamapy.core get_clauses, which puts the literals into sets (hashing realises a symbolic
+    # name: measured, no verdict): there the symbolic name stays out of the constraints (tree lines only)
+    m = _name_model(shape, pos, name, which == 'pl')
+    with NoTracing():
+        mt = _name_model(shape, pos, PLACEHOLDER, which == 'pl')
+        if which == 'pl':
+            tlines = pl_writer.to_exp(mt)
+        else:
+            tlines = SPLOTWriter(None, mt).transform().split('\n')
+    if which == 'pl':
+        lines = pl_writer.to_exp(m)
+        if len(lines) != len(tlines):
+            return False
+        for got, tmpl in zip(lines, tlines):
+            if PLACEHOLDER in tmpl:
+                if not _subst_equal(got, tmpl, name):
+                    return False
+            elif got != tmpl:
+                return False
+        return True
+    text = SPLOTWriter(None, m).transform()
+    return _subst_equal(text, '\n'.join(tlines), name)
+
+
+def conditions(tier, seed):
+    from ..runner import Cond
+    from .common import indexed_shapes
+    conds = []
+    N = 4
+    L = 3 if tier == 'quick' else 4
+    kw = sorted(set(str(c.value) for c in PLWriter.LogicConnective))
+    for si, shape in indexed_shapes(N, 3, siblings=False):
+        n = R.n_features(shape)
+        for which in ('pl', 'splot'):
+            if tier == 'quick' and (si + (which == 'pl')) % 2:
+                continue
+            # SPLOT: never the root (its name goes through str.replace, which realises a symbolic string: measured, no verdict)
+            pos = (si + seed) % n if which == 'pl' else 1 + (si + seed) % (n - 1)
+            others = ['F%d' % i for i in range(n) if i != pos] + (kw if which == 'pl' else [])
+            conds.append(Cond(
+                name='c10_name_%s_%d' % (which, si), imports='from fmverif.props import c10 as P\nSHAPE_%d = %r\n' % (si, shape), params='name: str',
+                pre=['1 <= len(name) <= %d' % L, 'all(c in %r for c in name)' % IDENT_CHARS, 'name[0] not in "0123456789"',
+                     'all(len(name) != len(o) or name != o for o in %r)' % (others,)],
+                body='P.name_commutes(%r, SHAPE_%d, %d, name)' % (which, si, pos), timeout=60 if tier == 'quick' else 200,
+                aspect='%s export of the model with a symbolic feature name == export of the placeholder model with the name substituted (tree lines and constraints)' % which,
+                sample={'shape': R.shape_str(shape), 'symbolic': 'name of F%d (identifier characters, not a connective of the format)' % pos, 'constraints': len(NAME_TREES)},
+                validate=[('AND',), ('Or',), ('x',), ('IMPLIES',), ('NOT',), ('F',)][: (6 if n > 2 else 3)]))
+    return conds
